@@ -49,11 +49,30 @@ def main(argv=None):
             if st != 0:
                 print(f"ANALYSIS-ERROR property={args.prop} self-test of the checker failed (see above)")
                 code = 2
-            from .seeded import run_seeded
+            from . import seeded as _seeded
+            from . import selftest as _selftest
 
-            if run_seeded(prop=args.prop) != 0:
+            if _seeded.run_seeded(prop=args.prop) != 0:
                 print(f"ANALYSIS-ERROR property={args.prop} a seeded change recorded as detected is no longer reported")
                 code = 2
+            # the thorough evidence also says what the checker itself was tested against
+            try:
+                from . import VERIF
+
+                ep = os.path.join(VERIF, "evidence", f"{args.prop}.json")
+                ev = json.load(open(ep))
+                ev["coverage"]["checker_selftest"] = _selftest.LAST_SUMMARY
+                ev["coverage"]["seeded_changes"] = _seeded.LAST_SUMMARY
+                extra = (_selftest.LAST_SUMMARY or {}).get("mutants", 0) + (_selftest.LAST_SUMMARY or {}).get("refactor_variants", 0) + (_selftest.LAST_SUMMARY or {}).get("whole_tree_rewrite_runs", 0) + (_seeded.LAST_SUMMARY or {}).get("changes", 0)
+                ev["coverage"]["explanation"] += (
+                    f" Thorough tier: the checker was additionally run on {extra} variants of the current sources (mutants that must be reported, "
+                    "behaviour-preserving rewrites that must stay silent, seeded changes written by independent agents), all analysed statically as in-memory overlays."
+                )
+                with open(ep, "w") as fp:
+                    json.dump(ev, fp, indent=1)
+                    fp.write("\n")
+            except Exception as e:  # evidence decoration must never change the verdict
+                print(f"note: could not extend the evidence file: {type(e).__name__}: {e}")
         assert_no_scenic()
         return code
     if args.cmd == "all":
